@@ -525,6 +525,7 @@ def run(tier):
                      path is None, finding=f_)
     rule_R6(res, prog)
     rule_R7(res, prog)
+    rule_R8(res, prog)
     return res.finish()
 
 
@@ -698,3 +699,99 @@ def rule_R7(res, prog):
                              file=f2.relfile, line=ln)
             res.instance(rid, "%s:%s seed \"%s\" followed by %s" % (f2.name, ln, lab, nxt), ok, finding=f_)
     res.floor(rid, 5)
+
+
+def rule_R8(res, prog):
+    """RFC 5246 6.2.1 / RFC 8446 5.1: several handshake messages may share one record, so a handshake message parser
+    must leave the read cursor exactly at the end of its message - every wire length is consumed once.  Typestate per
+    (cursor, length variable): `cursor += L` moves (cursor, L) to 'consumed'; assigning L or re-pointing the cursor
+    resets it; a second `cursor += L` in state 'consumed' on some path skips L bytes of the NEXT message of a coalescing
+    peer (OpenSSL, GnuTLS, NSS put Certificate + ClientKeyExchange + CertificateVerify in one record).
+    May-analysis (union at joins) over the CFG of every function of the handshake decoders."""
+    from sa import cfgutil as cu
+    from sa.ir import ASSIGN_OPS
+    rid = "C10.R8"
+    res.rule(rid, "handshake parsers advance the read cursor by each wire length at most once per value of that length")
+    FILES = ("matrixssl/hsDecode.c", "matrixssl/extDecode.c", "matrixssl/tls13Decode.c", "matrixssl/tls13DecodeExt.c")
+    n_adv = n_fn = 0
+
+    def lv(e):
+        e = strip(e)
+        while e is not None and e.get("k") == "cast":
+            e = strip(e["e"])
+        if e is not None and e.get("k") in ("var", "mem"):
+            return cu.ftext(e)
+        return None
+    for fn in sorted(prog.functions.values(), key=lambda f: (f.relfile, f.line)):
+        if fn.relfile not in FILES or not fn.blocks:
+            continue
+        advs = []
+        for b in fn.blocks:
+            for i, ln, x in cu.block_exprs(b):
+                for m in walk(x):
+                    if m.get("k") == "bin" and m["op"] == "+=" and "*" in ((strip(m["l"]) or {}).get("t") or "") and lv(m["l"]) and lv(m["r"]):
+                        advs.append((b["id"], ln))
+        if not advs:
+            continue
+        n_fn += 1
+        n_adv += len(advs)
+        IN = {b["id"]: None for b in fn.blocks}
+        IN[fn.entry] = frozenset()
+        work = [fn.entry]
+        bad = {}
+
+        def transfer(b, st, report):
+            st = set(st)
+            for i, ln, x in cu.block_exprs(b):
+                # children before parents would be evaluation order; assignments in one element are rare enough here
+                for m in walk(x):
+                    tgt = None
+                    if m.get("k") == "bin" and m["op"] in ASSIGN_OPS:
+                        tgt = lv(m["l"])
+                        if m["op"] == "+=" and "*" in ((strip(m["l"]) or {}).get("t") or "") and tgt and lv(m["r"]):
+                            key = (tgt, lv(m["r"]))
+                            if key in st and report is not None:
+                                report.setdefault((ln, key), True)
+                            st.add(key)
+                            continue
+                    elif m.get("k") == "un" and m.get("op") in ("++", "--", "post++", "post--", "pre++", "pre--"):
+                        tgt = lv(m["e"])
+                        if tgt and "*" in ((strip(m["e"]) or {}).get("t") or ""):
+                            continue        # c++ reads the bytes of the length itself
+                    elif m.get("k") == "call":
+                        for a in m.get("a", []):
+                            a0 = strip(a)
+                            if a0 is not None and a0.get("k") == "un" and a0["op"] == "&":
+                                t_ = lv(a0["e"])
+                                if t_:
+                                    st = set(k for k in st if t_ not in k)
+                    if tgt:
+                        st = set(k for k in st if tgt not in k)
+            return frozenset(st)
+        while work:
+            bid = work.pop()
+            out = transfer(fn.bmap[bid], IN[bid], None)
+            for sc in fn.bmap[bid]["succ"]:
+                s_ = sc.get("b")
+                if s_ is None:
+                    continue
+                new = out if IN[s_] is None else IN[s_] | out
+                if new != IN[s_]:
+                    IN[s_] = new
+                    work.append(s_)
+        for b in fn.blocks:
+            if IN[b["id"]] is not None:
+                transfer(b, IN[b["id"]], bad)
+        for (bid, ln) in sorted(set(advs), key=lambda t: t[1] or 0):
+            hits = [k for (l_, k) in bad if l_ == ln]
+            f_ = None
+            if hits:
+                c_, L_ = hits[0]
+                f_ = Finding(PROP, rid, fn.name, "read cursor advanced twice by the same wire length",
+                             "%s:%s %s(): `%s += %s` is reached on a path on which the cursor was already advanced by this value of %s: "
+                             "the parser returns with the cursor %s bytes past the end of its message, and the next handshake message of a "
+                             "peer that coalesces messages into one record (RFC 5246 6.2.1) is mis-parsed (unexpected_message / decode_error)" % (
+                                 fn.relfile, ln, fn.name, c_, L_, L_, L_), file=fn.relfile, line=ln)
+            res.instance(rid, "%s:%s cursor advance consumes a fresh length" % (fn.name, ln), not hits, finding=f_)
+    res.stats["R8_functions_with_advances"] = n_fn
+    res.floor(rid, 20)
